@@ -7,7 +7,7 @@
    [sem] of that script on those variables, the machine balance table [b] and the supplied metadata keys [extra].
    Everything is for ALL posting lists (any length, repeated accounts and amounts, @world on either side,
    self-transfers, zero / negative / huge amounts in Z, chains) and ALL balance tables. *)
-From FL Require Import Numscript.Sem Posting.Model Posting.Proofs.
+From FL Require Import Numscript.Sem Numscript.Corr Posting.Model Posting.Proofs.
 From Coq Require Import ZArith List.
 Import ListNotations.
 Open Scope Z_scope.
@@ -61,6 +61,18 @@ Print Assumptions C09_metadata_passthrough.
 Theorem C09_keys_present : forall ps am mm, collect ps [] [] = (am, mm) -> Forall (in_maps am mm) ps.
 Proof. exact keys_present. Qed.
 Print Assumptions C09_keys_present.
+
+(* the closed form every real run is compared with by the harness ([predict]: the request itself with no metadata, or
+   insufficient funds, decided by replaying the postings on the store's balances) is exactly what the script does *)
+Theorem C09_predict_sound : forall ps unb b st extra,
+  tracks b ps -> (forall a s, a <> world -> view b a s = store_balance st a s) ->
+  (forall p, In p ps -> 0 <= p_amount p) ->
+  match run_postings ps unb b extra with
+  | SOk r => predict ps unb st = ODone r
+  | SErr e => predict ps unb st = OErr e
+  end.
+Proof. exact predict_sound. Qed.
+Print Assumptions C09_predict_sound.
 
 (* non-vacuity: a chain (the second posting spends what the first delivered), a self-transfer, a zero amount, a
    repeated amount, @world on both sides, an amount beyond 64 bits; 1, 2 are ordinary accounts, asset 0 *)
